@@ -334,7 +334,7 @@ def big_optional_cases(rng, sohs=(0x7FFC, 0x8000, 0x8004, 0xFFFC), both_bits=Tru
             tab_end = pe.e_lfanew + 24 + soh_opt + 40 * nsec
             prd = (tab_end + 0x1FF) // 0x200 * 0x200
             va = (prd + 0xFFF) // 0x1000 * 0x1000
-            names = rng.sample([b".text", b".rdata", b".data", b"12345678", b"a\0b", b".rsrc"], nsec)
+            names = rng.sample([b".text", b".rdata", b".data", b"12345678", b"a\0b", b".rsrc", b"UPX\x001", b"\0\0\0\0tail", b"\xff.bad", b"caf\xc3\xa9", b"1234567\xc3"], nsec)
             for i in range(nsec):
                 rs = rng.choice([0x40, 0x200])
                 pe.sections.append(Section(name=names[i], va=va, vs=rs + rng.choice([0, 5, 0x100]), prd=prd, rs=rs, data=rand_bytes(rng, rs)))
@@ -351,6 +351,8 @@ def big_optional_cases(rng, sohs=(0x7FFC, 0x8000, 0x8004, 0xFFFC), both_bits=Tru
                 case += ["hdr " + k, "hdrw " + k, "hdrw2 " + k]
                 for i in range(nsec + 1):
                     case.append("secbytes %s %d" % (k, i))
+                for i in range(nsec + 1):
+                    case.append("secname %s %d" % (k, i))
                 for sct in pe.sections:
                     case.append("byname %s %s" % (k, sct.name.hex()))
                     for d in (-1, 0, 1):
@@ -404,6 +406,9 @@ def gen_c07(rng, tier):
                 case.append("byrva %s 0x%x" % (k, (s.va + s.vs + d) & U32))
         for nm in sorted(names):
             case.append("byname %s %s" % (rng.choice(ks), nm.hex() if nm else "-"))
+        # `name()` / `name_bytes()` of every entry (interior NULs stay, trailing ones go, no UTF-8: the raw bytes)
+        for i in range(min(len(pe.sections), 6) + 1):
+            case.append("secname %s %d" % (rng.choice(ks), i))
         cases.append(case)
     # tiny buffers
     for L in (0, 1, 63, 64, 65):
@@ -636,7 +641,7 @@ def gen_c05(rng, tier):
                 t = rng.choice(types)
                 case.append("derva %s %s 0x%x" % (k, t, r)); case.append("deref %s %s 0x%x" % (k, t, va))
                 case.append("derva_copy %s %s 0x%x" % (k, t, r)); case.append("deref_copy %s %s 0x%x" % (k, t, va))
-                ln = rng.choice([0, 1, 3, 8, 17])
+                ln = rng.choice([0, 1, 2, 3, 4, 8, 8, 16, 17])
                 case.append("derva_into %s %d 0x%x" % (k, ln, r)); case.append("deref_into %s %d 0x%x" % (k, ln, va))
                 ln = rng.choice([0, 1, 2, 5, 0x100, 1 << 30, 1 << 61, 1 << 63])
                 case.append("derva_slice %s %s 0x%x %d" % (k, t, r, ln)); case.append("deref_slice %s %s 0x%x %d" % (k, t, va, ln))
@@ -728,6 +733,8 @@ def gen_c06(rng, tier):
         for r in rvas:
             q.append(("derva_copy %s u32 0x%x", r)); q.append(("derva_cstr %s 0x%x", r)); q.append(("derva_into %s 8 0x%x", r))
             q.append(("derva_slice_s %s u16 0x%x 0", r)); q.append(("slice %s 0x%x 1 1", r))
+            # where the file stores the byte of this RVA (the conversion both representations offer)
+            q.append(("r2f %s 0x%x", r))
             for pr in slice_f_preds(rng, pe, r, 2, 1):
                 q.append(("derva_slice_f %%s u16 0x%%x %s" % pr, r))
             # the VA twins (same bytes through ImageBase + rva): sentinel arrays that end exactly where the
@@ -751,6 +758,12 @@ def gen_c06(rng, tier):
         # the bytes a section header describes: raw data on the file, the virtual extent on the converted view (a
         # bss-style section — no raw data, PointerToRawData 0 — is VirtualSize zero bytes there, not a null error)
         sb = ["secbytes %%s %d" % i for i in range(len(pe.sections) + 1)]
+        # ... and the inverse: which file offsets are mapped at all (raw bytes beyond VirtualSize are not)
+        offs = set([lay["size_of_headers"] - 1, lay["size_of_headers"]])
+        for s in pe.sections:
+            for e in (0, min(s.vs, s.rs) - 1, min(s.vs, s.rs), s.rs - 1, s.rs, s.vs - 1, s.vs):
+                offs.add(s.prd + e)
+        q += [("f2r %s 0x%x", o) for o in sorted(offs) if 0 <= o <= U32]
         case = [img_line(rng, data), "from_bytes " + kf, "to_view " + kf]
         case += [fmt % (kf, r) for fmt, r in q] + [o % kf for o in sb] + [o % "wf" for o in sb]
         case += ["img_to_view " + kf, "from_bytes " + kv]
